@@ -202,7 +202,11 @@ func (vc *VC) modifiesHeapVars(callee *ssa.Function, cc *Contract) (hvs []string
 	st := &State{reach: "true", env: map[ssa.Value]Val{}, heap: map[string]string{}, names: map[string]Val{}, alloc: "0"}
 	vc.suppress++
 	saved := len(vc.cmds)
-	defer func() { vc.suppress--; vc.cmds = vc.cmds[:saved] }()
+	savedDecl := make(map[string]bool, len(vc.declared))
+	for k, v := range vc.declared {
+		savedDecl[k] = v
+	}
+	defer func() { vc.suppress--; vc.cmds = vc.cmds[:saved]; vc.declared = savedDecl }()
 	sc := &specCtx{vc: vc, st: st, old: st, vars: map[string]Val{}, bound: map[string]*Term{}, pkg: pkgOf(callee), fn: callee}
 	bindDummy(vc, sc, callee, cc)
 	for _, m := range cc.Modifies {
@@ -415,20 +419,65 @@ func (vc *VC) typeInvFact(sc *specCtx, t *Term) string {
 	if t.T == nil {
 		return "true"
 	}
-	nt, ok := types.Unalias(t.T).(*types.Named)
-	if !ok || nt.Obj().Pkg() == nil {
-		return "true"
+	var facts []string
+	if nt, ok := types.Unalias(t.T).(*types.Named); ok && nt.Obj().Pkg() != nil {
+		if ti := vc.eng.cs.TypeInvs[nt.Obj().Pkg().Path()+"#"+nt.Obj().Name()]; ti != nil {
+			n := sc.child()
+			if p := vc.eng.typesPkg(ti.PkgPath); p != nil {
+				n.pkg = p
+			}
+			n.vars[ti.Self] = t
+			facts = append(facts, n.evalBool(ti.Clause.Expr))
+		}
 	}
-	ti := vc.eng.cs.TypeInvs[nt.Obj().Pkg().Path()+"#"+nt.Obj().Name()]
-	if ti == nil {
-		return "true"
+	// invariants of struct-valued fields (e.g. SuDnum{Dnum})
+	if s, ok := structOf(t.T); ok && vc.hasNestedInv(t.T, 0) {
+		sn := vc.sortOf(t.T)
+		for i := 0; i < s.NumFields(); i++ {
+			ft := s.Field(i).Type()
+			if _, isS := structOf(ft); isS {
+				f := vc.typeInvFact(sc, &Term{fmt.Sprintf("(%s_f%d %s)", sn, i, t.S), vc.sortOf(ft), ft})
+				if f != "true" {
+					facts = append(facts, f)
+				}
+			}
+		}
 	}
-	n := sc.child()
-	if p := vc.eng.typesPkg(ti.PkgPath); p != nil {
-		n.pkg = p
+	return and(facts...)
+}
+
+// hasNestedInv: does the type, or a struct-valued field of it, carry a declared invariant?
+func (vc *VC) hasNestedInv(t types.Type, depth int) bool {
+	if depth > 4 {
+		return false
 	}
-	n.vars[ti.Self] = t
-	return n.evalBool(ti.Clause.Expr)
+	if nt, ok := types.Unalias(t).(*types.Named); ok && nt.Obj().Pkg() != nil {
+		if vc.eng.cs.TypeInvs[nt.Obj().Pkg().Path()+"#"+nt.Obj().Name()] != nil {
+			return true
+		}
+	}
+	if s, ok := structOf(t); ok {
+		for i := 0; i < s.NumFields(); i++ {
+			if _, isS := structOf(s.Field(i).Type()); isS && vc.hasNestedInv(s.Field(i).Type(), depth+1) {
+				return true
+			}
+		}
+	}
+	return false
+}
+
+// assumeTypeInv: values coming out of an interface or memory satisfy the
+// invariants of their type (every constructor is obliged to establish them).
+func (vc *VC) assumeTypeInv(st *State, t *Term) {
+	if t.T == nil || !vc.hasNestedInv(t.T, 0) {
+		return
+	}
+	var pkg *types.Package
+	if vc.root != nil && vc.root.Pkg != nil {
+		pkg = vc.root.Pkg.Pkg
+	}
+	sc := &specCtx{vc: vc, st: st, old: st, vars: map[string]Val{}, bound: map[string]*Term{}, pkg: pkg}
+	vc.assumeUnder(st.reach, vc.typeInvFact(sc, t))
 }
 
 func (f *frame) invoke(st *State, com *ssa.CallCommon, instr ssa.Instruction, pos token.Pos) Val {
@@ -552,4 +601,20 @@ func (f *frame) builtin(st *State, bi *ssa.Builtin, com *ssa.CallCommon, instr s
 	}
 	unsup("builtin %s", bi.Name())
 	return nil
+}
+
+// obligeTypeInv: a value entering memory or an interface must satisfy the
+// invariants of its type (they are assumed again when it is read back).
+func (vc *VC) obligeTypeInv(st *State, t *Term, kind, desc string, pos token.Pos) {
+	if t == nil || t.T == nil || !vc.hasNestedInv(t.T, 0) {
+		return
+	}
+	var pkg *types.Package
+	if vc.root != nil && vc.root.Pkg != nil {
+		pkg = vc.root.Pkg.Pkg
+	}
+	sc := &specCtx{vc: vc, st: st, old: st, vars: map[string]Val{}, bound: map[string]*Term{}, pkg: pkg}
+	if g := vc.typeInvFact(sc, t); g != "true" {
+		vc.obligeAndAssume(st, kind, g, desc, pos)
+	}
 }
